@@ -716,6 +716,7 @@ def r4_order(program, folder, rep):
     # or through groupby over a sorted sequence)
     GG = Terms(g)
     oks = False
+    dropped = None
     for n in ast.walk(g):
         if isinstance(n, ast.For) and id(n) in GG.cfg.loop_head and any(
                 isinstance(y_, ast.Yield) for y_ in ast.walk(n)):
@@ -725,6 +726,29 @@ def r4_order(program, folder, rep):
                     it_[1] == ("global", "sorted") or
                     it_[1][-1] == "groupby"):
                 oks = True
+            if it_[0] == "item" and it_[2][0] == "slice" and \
+                    it_[1][0] == "call" and it_[1][1] == ("global",
+                                                          "sorted") and \
+                    it_[2][1][0] == "const" and \
+                    isinstance(it_[2][1][1], int) and it_[2][1][1] >= 1 and \
+                    not any(st_[0] in ("set", "tuple", "list") and
+                            ("const", 0) in st_[1:] for st_ in subterms(
+                                it_[1])):
+                # sorted(<selections>)[1:] - the smallest left out by
+                # position, on the belief that it is the empty selection
+                # (nothing puts one there: with every core selected it is
+                # a real one)
+                dropped = n
+    if dropped is not None:
+        rep.bad("C12-R4", qual(g), "node pairs by position",
+                "the node's own pairs are taken from the sorted selections "
+                "with the first %d left out by position: that one is the "
+                "empty selection only while some core number is unused at "
+                "the node - when all 18 are selected the smallest real "
+                "selection is left out and its cores are never loaded" %
+                plain(GG.term(dropped.iter, GG.cfg.loop_head[id(dropped)])
+                      )[2][1][1], dropped)
+        return
     if not oks and not any(
             isinstance(c_, ast.Call) and call_name(c_)[0] in ("sorted",
                                                               "sort")
